@@ -98,7 +98,7 @@ func (w *faultWriter) Write(p []byte) (int, error) {
 
 type cuCase struct {
 	Args    []string
-	Files   map[string]string      // contents by file name, served through WithFileReaders
+	Files   map[string]string       // contents by file name, served through WithFileReaders
 	Readers map[string]*faultReader // optional fault plan per file name
 	Out     *faultWriter
 }
